@@ -27,6 +27,12 @@ pub fn set_seq_db(db: Option<fjall::Database>) {
     *SEQ_DB.lock().unwrap() = db;
 }
 
+/// Installs `db` as the database whose queued background work the SEQ stall hook performs, and
+/// returns the previous one (follow-up writes on a recovered copy of the directory)
+pub fn swap_seq_db(db: Option<fjall::Database>) -> Option<fjall::Database> {
+    std::mem::replace(&mut *SEQ_DB.lock().unwrap(), db)
+}
+
 pub fn set_rotation_threshold(t: u64) {
     ROTATION_THRESHOLD.store(if t == 0 { 64_000_000 } else { t }, Ordering::SeqCst);
 }
